@@ -5,6 +5,17 @@
    `move_mol_atom pos tb k d = Ok out` is the "generic coordinates" hypothesis: the only failure on a
    well-formed table is a zero distance between an atom and its parent (C07_only_failure_is_coincidence). *)
 From GM Require Import Proofs.RTac Model.Transform Proofs.TransformComb Proofs.TransformR.
+From GM Require Import Gen.KernelsGen Proofs.KernelsGenEq.
+
+(* The tie by translation: the arithmetic of one repositioning in the bond-restoring loop of move_mol_atom
+   (the four statements from `diferencia = ...` to `atoms_pos[ind2] = ...`), as generated at this run from the
+   CURRENT source text of gaddlemaps/_transform_molecule.py (Gen/KernelsGen.v, harness/pytrans.py), is the
+   model's `pull` - for every Scalar instance.  The queue discipline of the loop is tied by K only. *)
+Theorem C07_model_is_source_pull : forall (T : Type) (H : Scalar T) (p1 p2 : V3 T) (bond : T),
+  pull_gen p1 p2 bond = pull p1 p2 bond.
+Proof. exact (@pull_gen_eq). Qed.
+Print Assumptions C07_model_is_source_pull.
+
 Import ListNotations.
 Local Open Scope R_scope.
 
